@@ -1,7 +1,7 @@
-\* C23 leg A thorough: one series rf 1..6, two series rf 2..3 on 3 nodes, outcomes ok/conflict/unavailable.
+\* C23 leg A thorough (1): one series rf 1..5 incl. a local replica (rf 6: see _rf6.cfg), two series rf 2..3 on 3 nodes, outcomes ok/conflict/unavailable.
 \* cases: one series rf 1..6 (3^rf runs), replicated, two series rf 2 on 3 nodes (every assignment x order)
 SPECIFICATION Spec
-CONSTANTS RF1 = {1, 2, 3, 4, 5, 6}
+CONSTANTS RF1 = {1, 2, 3, 4, 5}
           RF2 = {2, 3}
           N2 = 3
           Outcomes = {"ok", "conflict", "unavailable", "notready"}
